@@ -34,6 +34,8 @@ const OP_DB_ID_SIZE: usize = 8;
 const OP_TIME_SIZE: usize = 8;
 const OP_OP_SIZE: usize = 1;
 const OP_RECORD_SIZE: usize = OP_TIME_SIZE + OP_DB_ID_SIZE + OP_KEY_SIZE + OP_OP_SIZE;
+const METADATA_FILE_NAME: &str = "nun.metadata";
+const METADATA_RECORD_SIZE: usize = U64_SIZE + VERSION_SIZE;
 
 pub struct S3PartitionStorage {}
 impl S3PartitionStorage {
@@ -60,6 +62,26 @@ impl S3PartitionStorage {
             .collect::<Vec<_>>();
         partitions_to_update.sort();
         partitions_to_update.dedup();
+        // Metadata first (as the disk strategy does), the id and the consensus strategy of the
+        // database must come back with its data
+        let metadata_result = retry(
+            || {
+                let mut metadata_buffer = BytesMut::with_capacity(METADATA_RECORD_SIZE);
+                //8 bytes
+                metadata_buffer.put_slice(&db.metadata.id.to_le_bytes());
+                //4 bytes
+                metadata_buffer.put_slice(&db.metadata.consensus_strategy.to_le_bytes());
+                rt.block_on(S3PartitionStorage::store_buffer_to_s3(
+                    metadata_buffer,
+                    &format!("{}/{}", db_name, METADATA_FILE_NAME),
+                ))
+            },
+            *NUN_S3_RETRY,
+        );
+        if let Err(e) = metadata_result {
+            log::error!("Fail to store the metadata of {} in s3: {}", db_name, e);
+            panic!("Fail to store the metadata of {} in s3: {}", db_name, e);
+        }
         // Find other keys in the same parition
         partitions_to_update.into_iter().for_each(|partition| {
             let _result = Result::or_else(
@@ -73,9 +95,13 @@ impl S3PartitionStorage {
                         });
                         let mut file_buffer: BytesMut =
                             BytesMut::with_capacity(OP_RECORD_SIZE * 10);
-                        for (key, value) in keys_in_patition {
+                        for (key, value) in keys_in_patition.iter() {
+                            if value.state == ValueStatus::Deleted {
+                                // The partition is rewritten as a whole, a removed key is simply
+                                // not part of it anymore
+                                continue;
+                            }
                             log::debug!("Key: {} Value: {}", key, value.value);
-                            changed_keys = changed_keys + 1;
                             let len = key.len();
                             //8bytes
                             file_buffer.put_slice(&len.to_le_bytes());
@@ -93,14 +119,6 @@ impl S3PartitionStorage {
 
                             //4 bytes
                             file_buffer.put_slice(&value.version.to_le_bytes());
-
-                            db.set_value_as_ok(
-                                &key,
-                                &value,
-                                partition, // Use partition id here to know where to store
-                                partition, // Use partition id here to know where to store
-                                Databases::next_op_log_id(),
-                            );
                         }
                         log::debug!(
                             "Will store the database {} partition {}",
@@ -114,6 +132,21 @@ impl S3PartitionStorage {
                         match store_result {
                             Ok(_) => {
                                 log::debug!("S3PartitionStorage::store_buffer_to_s3 ok");
+                                // Only what did reach s3 is clean
+                                for (key, value) in keys_in_patition.iter() {
+                                    changed_keys = changed_keys + 1;
+                                    if value.state == ValueStatus::Deleted {
+                                        db.purge_deleted_key(&key);
+                                    } else {
+                                        db.set_value_as_ok(
+                                            &key,
+                                            &value,
+                                            partition, // Use partition id here to know where to store
+                                            partition, // Use partition id here to know where to store
+                                            Databases::next_op_log_id(),
+                                        );
+                                    }
+                                }
                                 Ok::<(), String>(())
                             }
                             Err(err) => {
@@ -250,10 +283,11 @@ impl S3PartitionStorage {
         if let Err(msg) = has_any_partition_failed {
             Err(String::from(format!("Fail to load files from s3: {}", msg)))
         } else {
+            let metadata = read_metadata_from_cloud(&rt, &client, db_name, bucket)?;
             Ok(Database::create_db_from_value_hash(
                 db_name.to_string(),
                 value_data,
-                DatabaseMataData::new(1, ConsensuStrategy::Arbiter),
+                metadata,
             ))
         }
     }
@@ -336,6 +370,66 @@ fn build_s3_client() -> Client {
     client
 }
 
+/// Reads the id and the consensus strategy stored with the database, buckets written before the
+/// metadata was stored get the values they always got.
+fn read_metadata_from_cloud(
+    rt: &Runtime,
+    client: &Client,
+    db_name: &String,
+    bucket: &str,
+) -> Result<DatabaseMataData, String> {
+    let metadata_file = format!(
+        "{}/{}/{}",
+        NUN_S3_READ_PREFIX.to_string(),
+        db_name,
+        METADATA_FILE_NAME
+    );
+    retry(
+        || {
+            rt.block_on(async {
+                match client
+                    .get_object()
+                    .bucket(bucket)
+                    .key(&metadata_file)
+                    .send()
+                    .await
+                {
+                    Ok(r) => {
+                        let bytes = match r.body.collect().await {
+                            Ok(b) => b.into_bytes(),
+                            Err(e) => return Err(format!("Fail to read {}: {}", metadata_file, e)),
+                        };
+                        if bytes.len() < METADATA_RECORD_SIZE {
+                            return Err(format!("Metadata {} is too short", metadata_file));
+                        }
+                        let mut id_buffer = [0; U64_SIZE];
+                        id_buffer.copy_from_slice(&bytes[..U64_SIZE]);
+                        let mut strategy_buffer = [0; VERSION_SIZE];
+                        strategy_buffer.copy_from_slice(&bytes[U64_SIZE..METADATA_RECORD_SIZE]);
+                        Ok(DatabaseMataData::new(
+                            usize::from_le_bytes(id_buffer),
+                            ConsensuStrategy::from(i32::from_le_bytes(strategy_buffer)),
+                        ))
+                    }
+                    Err(e) => {
+                        let not_found = e
+                            .as_service_error()
+                            .map(|service_error| service_error.is_no_such_key())
+                            .unwrap_or(false);
+                        if not_found {
+                            Ok(DatabaseMataData::new(1, ConsensuStrategy::Arbiter))
+                        } else {
+                            log::error!("{} trying to load the metadata of the databse", e);
+                            Err(format!("Fail to load {} from s3.", metadata_file))
+                        }
+                    }
+                }
+            })
+        },
+        *NUN_S3_RETRY,
+    )
+}
+
 fn get_patirion_list_form_s3(
     rt: &Runtime,
     client: &Client,
@@ -355,6 +449,7 @@ fn get_patirion_list_form_s3(
             .flat_map(|x| x.key())
             .map(ToString::to_string)
             .map(|s| s.split("/").last().unwrap().to_string())
+            .filter(|s| s.ends_with(".nun")) // Not the metadata
             .map(|s| s.split(".").next().unwrap().to_string())
             .collect::<Vec<String>>()
     });
